@@ -715,7 +715,9 @@ func typeDirected(c *Ctx) {
 			"(%s)[0]", "(%s)[-1]", "(%s)[\"a\"]", "v=%s;v[0]=1;v", "v=%s;v.a=1;v", "v=%s;v[\"k\"]=v;v", "v=%s;del(v[0]);v", "v=%s;del(v.a);v",
 			"v=%s;del(v);v", "{%s:1}", "{1:%s}", "[%s]", "return %s", "func tf(){return %s};tf()", "\"s\" | %s", "%s | len(1)",
 			"A=%s;A=%s", "A=%s;A=1", "func tf(A){A};tf(%s)", "m=macro(a){quote(unquote(a))};m(%s)", "m=macro(a){a};m(%s)",
-			"m=macro(a){quote(%s)};m(1)", "quote(unquote(%s))", "quote(%s)", "v=%s;func g(){del(v)};func tf(){v;g();v};tf()",
+			"m=macro(a){quote(%s)};m(1)", "m=macro(a){println(%s); quote(1)};m(1)", "m=macro(a){x=%s; y=[x,x]; quote(unquote(a))};m(1)",
+			"m=macro(a){func g(p){p}; g(%s); quote(unquote(a))};m(1)", "m=macro(a){for v = %s {v}; quote(1)};m(1)", "m=macro(a){if %s {1}; quote(1)};m(1)",
+			"unjson(%s)", "eval(%s)", "quote(unquote(%s))", "quote(%s)", "v=%s;func g(){del(v)};func tf(){v;g();v};tf()",
 			"v=%s;func tf(){v=1;v};tf();v", "func tf(..){..};tf(%s)", "func tf(a,..){..};tf(1,%s,%s)", "self", "v=%s;v[0:1]", "v=%s;v[1:]",
 			"v=%s;v[-1:]", "(%s)[(%s):(%s)]", "(%s)[(%s)]"} {
 			n := strings.Count(f, "%s")
@@ -1390,7 +1392,10 @@ func runC07(c *Ctx) {
 		"func f(a){len(a)}; f({1:{[1,2,3,4,5,6,7,8,9]:1}})",
 		// a ninth simultaneous register (seeded regression 2B)
 		"func l8(a,b,c,d,e,g,h,k){r=0; for i=3{r=r+a+b+c+d+e+g+h+k+i}; r}; l8(1,1,1,1,1,1,1,1)",
-		"r=0; for i=2 {for j=2 {for k=2 {for l=2 {for m=2 {for o=2 {for p=2 {for u=2 {for v=2 { r=r+i+v }}}}}}}}}; r"}
+		"r=0; for i=2 {for j=2 {for k=2 {for l=2 {for m=2 {for o=2 {for p=2 {for u=2 {for v=2 { r=r+i+v }}}}}}}}}; r",
+		// macro bodies are evaluated in their own state: output, nested expressions, function calls (found with C09, repaired)
+		"m=macro(a){println(1); quote(1)}; m(1)", "m=macro(a){x=1+2; quote(unquote(a))}; m(1)", "m=macro(a){func g(){1}; g(); quote(1)}; m(1)",
+		"m=macro(a){print(a); log(a); quote(unquote(a))}; m(1+2)", `unjson("println(1); [1,{2:3}]")`}
 	for _, s := range corpus {
 		check(c, "corpus", s, std)
 		evalOneAgrees(c, s)
